@@ -4,7 +4,7 @@
 # IDS="C02 C14" restricts the run to the seeds of those properties; DIRS="seeded6 seeded7" to those rounds.
 cd /verif
 export VERIF_FAILFAST=1      # a seed that makes workloads hang would otherwise sit out every time-out
-for d in ${DIRS:-seeded seeded2 seeded3 seeded4 seeded5 seeded6 seeded7 seeded8 seeded9}; do for i in 01 02 03 04 05 06 07 08 09 10 11 12 13 14 15 16 17 18 19 20; do
+for d in ${DIRS:-seeded seeded2 seeded3 seeded4 seeded5 seeded6 seeded7 seeded8 seeded9 seeded10}; do for i in 01 02 03 04 05 06 07 08 09 10 11 12 13 14 15 16 17 18 19 20; do
   id=C$i; [ -f $d/$id/patch.diff ] || continue
   [ -z "${IDS:-}" ] || echo " $IDS " | grep -q " $id " || continue
   chk=$id; [ "$d/$id" = "seeded5/C03" ] && chk=C02
